@@ -139,6 +139,12 @@ func (d *Discharger) Discharge(vc *VC) {
 		if ob.Cover {
 			ok = res == "sat"
 		}
+		if d.Thorough && !ob.Cover {
+			// thorough tier: every proof obligation is decided standalone by all three solvers
+			// (agreement check); the incremental answer is only kept as a hint
+			pending = append(pending, ob)
+			continue
+		}
 		if ob.Cover && res == "unsat" {
 			// vacuity: with all axioms (quantified ones included) no return satisfies the antecedent
 			ob.Result = "unsat"
